@@ -1,3 +1,4 @@
+use crate::common::manager::info::GetManagerInfo;
 use crate::server::event::journal::{JournalReader, JournalWriter};
 use crate::server::event::payload::EventPayload;
 use tako::JobId;
@@ -12,8 +13,12 @@ pub(crate) fn prune_journal(
     for event in reader {
         let mut event = event?;
         let event = match &mut event.payload {
-            EventPayload::WorkerConnected(worker_id, _) => {
-                live_worker_ids.contains(worker_id).then_some(event)
+            EventPayload::WorkerConnected(worker_id, configuration) => {
+                // Workers started by an allocation have to be kept: the worker resources of
+                // their allocation queue are restored from these records
+                (live_worker_ids.contains(worker_id)
+                    || configuration.get_manager_info().is_some())
+                .then_some(event)
             }
             EventPayload::WorkerLost(worker_id, reason) => {
                 // Losses caused by a failure have to be kept: the crash counters of the
